@@ -1,0 +1,29 @@
+// Copyright ©2011-2012 The bíogo Authors. All rights reserved.
+// Use of this source code is governed by a BSD-style
+// license that can be found in the LICENSE file.
+
+//go:build verif
+
+package concurrent
+
+import "sync/atomic"
+
+// Hook for the external verification harness (build tag verif). When no
+// function is installed the hook does nothing.
+
+var verifStepFn atomic.Value // func(string)
+
+// VerifSetStep installs f to be called at the named steps of the Processor
+// workers' exit and of Promise.Wait. A nil f removes the hook.
+func VerifSetStep(f func(step string)) {
+	if f == nil {
+		f = func(string) {}
+	}
+	verifStepFn.Store(f)
+}
+
+func verifStep(step string) {
+	if f, ok := verifStepFn.Load().(func(string)); ok {
+		f(step)
+	}
+}
